@@ -348,16 +348,36 @@ def canon_reply(reply, stream="plain"):
 # --------------------------------------------------------------------------
 # Lean side
 # --------------------------------------------------------------------------
+_LOCK_DEPTH = [0]
+_LOCK_FILE = [None]
+
+
+class build_lock:
+    """Exclusive lock on the Lean project (re-entrant within this process). Regenerating a file under Generated/, building the
+    module that depends on it and reading the result back are done under one lock, so that two checks running at the same
+    time - possibly against different copies of the repository - never see each other's generated files."""
+
+    def __enter__(self):
+        if _LOCK_DEPTH[0] == 0:
+            _LOCK_FILE[0] = open(os.path.join(LEAN_DIR, ".build.lock"), "w")
+            fcntl.flock(_LOCK_FILE[0], fcntl.LOCK_EX)
+        _LOCK_DEPTH[0] += 1
+        return self
+
+    def __exit__(self, *exc):
+        _LOCK_DEPTH[0] -= 1
+        if _LOCK_DEPTH[0] == 0:
+            fcntl.flock(_LOCK_FILE[0], fcntl.LOCK_UN)
+            _LOCK_FILE[0].close()
+            _LOCK_FILE[0] = None
+        return False
+
+
 def lake_build(targets=("PsecModel", "psecdrv"), timeout=3000):
-    """Build under a lock (a no-op when nothing changed). Returns (ok, output)."""
-    lock = open(os.path.join(LEAN_DIR, ".build.lock"), "w")
-    fcntl.flock(lock, fcntl.LOCK_EX)
-    try:
+    """Build under the lock (a no-op when nothing changed). Returns (ok, output)."""
+    with build_lock():
         p = subprocess.run(["lake", "build", *targets], cwd=LEAN_DIR, capture_output=True, text=True, timeout=timeout)
         return p.returncode == 0, p.stdout + p.stderr
-    finally:
-        fcntl.flock(lock, fcntl.LOCK_UN)
-        lock.close()
 
 
 def run_driver(groups, nproc=None):
